@@ -274,3 +274,231 @@ Section Round.
     unfold body. rewrite Hfind. unfold b. rewrite (do_rule_written sp p ex m Hwf). reflexivity.
   Qed.
 End Round.
+
+(* ---------------------------------------------------------------- whole files: split("\n") . join("\n") *)
+Lemma no_nl_cons x a : no_nl (x :: a) = true -> N.eqb x NL = false /\ no_nl a = true.
+Proof.
+  unfold no_nl, mem_ch. cbn [existsb]. intros H. apply negb_true_iff in H. apply orb_false_elim in H as [H1 H2].
+  rewrite N.eqb_sym in H1. rewrite H2. auto.
+Qed.
+Lemma no_nl_app a b : no_nl (a ++ b) = no_nl a && no_nl b.
+Proof. unfold no_nl, mem_ch. rewrite existsb_app, negb_orb. reflexivity. Qed.
+Lemma no_nl_escape m : no_nl m = true -> no_nl (escape m) = true.
+Proof.
+  induction m as [|c m IH]; [reflexivity|]. intros H. apply no_nl_cons in H as [H1 H2].
+  unfold escape in *. simpl. rewrite no_nl_app, (IH H2), andb_true_r.
+  unfold esc_ch. destruct (N.eqb c BS); [reflexivity|]. destruct (N.eqb c DQ); [reflexivity|].
+  unfold no_nl, mem_ch. cbn [existsb]. rewrite N.eqb_sym, H1. reflexivity.
+Qed.
+
+Lemma split_ch_aux_app a rest cur :
+  no_nl a = true -> split_ch_aux NL (a ++ rest) cur = split_ch_aux NL rest (rev a ++ cur).
+Proof.
+  revert cur. induction a as [|x a IH]; intros cur H; [reflexivity|].
+  apply no_nl_cons in H as [H1 H2]. simpl. rewrite H1, (IH _ H2), <- app_assoc. reflexivity.
+Qed.
+
+Lemma split_join ls : ls <> [] -> Forall (fun l => no_nl l = true) ls -> split_ch NL (join [NL] ls) = ls.
+Proof.
+  induction ls as [|x ls IH]; [congruence|]. intros _ H. inversion H as [|? ? Hx Hls]; subst.
+  unfold split_ch in *. destruct ls as [|y ls].
+  - simpl. rewrite <- (app_nil_r x) at 1. rewrite (split_ch_aux_app x [] [] Hx). simpl.
+    rewrite app_nil_r, rev_involutive. reflexivity.
+  - change (join [NL] (x :: y :: ls)) with (x ++ [NL] ++ join [NL] (y :: ls)).
+    rewrite (split_ch_aux_app x _ [] Hx). simpl app. simpl split_ch_aux at 1. 
+    rewrite app_nil_r, rev_involutive. f_equal. apply IH; [discriminate|exact Hls].
+Qed.
+
+Lemma find_dir_In d l sp : find_dir d l = Some sp -> In sp l /\ d_name sp = d.
+Proof.
+  induction l as [|x l IH]; simpl; [discriminate|].
+  destruct (str_eqb_spec d (d_name x)) as [->|_].
+  - intros H; injection H as <-. auto.
+  - intros H. destruct (IH H). auto.
+Qed.
+
+Section RoundText.
+  Variable home : option str.
+  Variable expu : str -> eu_result.
+
+  Lemma write_value_rule v sp : spec_of v = Some sp -> write_value v = write_rule sp (v_pat v) (v_exact v) (v_msg v).
+  Proof. intros H. apply find_dir_In in H as [_ H]. unfold write_value, write_rule. rewrite H. reflexivity. Qed.
+
+  Lemma step_value g v : wf_value home v = true -> step home expu g (write_value v) = Ok (value_effect v).
+  Proof.
+    unfold wf_value, value_effect. destruct (spec_of v) as [sp|] eqn:E; [|discriminate]. intros Hwf.
+    rewrite (write_value_rule v sp E). apply find_dir_In in E as [Hin _].
+    apply step_written; assumption.
+  Qed.
+
+  Lemma write_value_no_nl v : wf_value home v = true -> one_line v = true -> no_nl (write_value v) = true.
+  Proof.
+    unfold wf_value, one_line. destruct (spec_of v) as [sp|] eqn:E; [|discriminate]. intros _ H.
+    apply andb_true_iff in H as [Hp Hm].
+    apply find_dir_In in E as [Hin Hname]. unfold write_value. rewrite <- Hname.
+    assert (Hd : no_nl (d_name sp) = true).
+    { clear -Hin. repeat (destruct Hin as [<-|Hin]; [vm_compute; reflexivity|]). destruct Hin. }
+    assert (Ha : no_nl (if v_exact v then [SP; BAR] else []) = true) by (destruct (v_exact v); reflexivity).
+    assert (Hmm : no_nl (match v_msg v with Some m => [SP; DQ] ++ escape m ++ [DQ] | None => [] end) = true).
+    { destruct (v_msg v) as [m|]; [|reflexivity]. rewrite !no_nl_app, (no_nl_escape m Hm). reflexivity. }
+    rewrite !no_nl_app. repeat (apply andb_true_iff; split); first [exact Hp|exact Hd|exact Ha|exact Hmm|reflexivity].
+  Qed.
+
+  Lemma run_values vs st :
+    Forall (fun v => wf_value home v = true) vs ->
+    run home expu (map write_value vs) st = fold_left (fun st v => apply_opt (value_effect v) st) vs st.
+  Proof.
+    revert st. induction vs as [|v vs IH]; intros st H; [reflexivity|].
+    inversion H as [|? ? Hv Hvs]; subst. simpl map. rewrite run_cons. unfold eff.
+    rewrite (step_value true v Hv). simpl. apply IH; exact Hvs.
+  Qed.
+
+  Lemma roundtrip_text h vs :
+    home = Some h -> vs <> [] ->
+    Forall (fun v => wf_value home v = true) vs -> Forall (fun v => one_line v = true) vs ->
+    parse_config home expu (write_config vs)
+    = Ok (config_of (fold_left (fun st v => apply_opt (value_effect v) st) vs init)).
+  Proof.
+    intros Hh Hne Hwf Hone. rewrite (parse_config_total home expu h _ Hh). unfold lines_of, write_config.
+    rewrite split_join.
+    - rewrite (run_values vs init Hwf). reflexivity.
+    - destruct vs; [congruence|discriminate].
+    - apply Forall_forall. intros l Hl. apply in_map_iff in Hl as [v [<- Hv]].
+      rewrite Forall_forall in Hwf, Hone. apply write_value_no_nl; auto.
+  Qed.
+
+  (* ---------------------------------------------------------------- alias lines *)
+  Lemma split_all_aux_app t rest cur :
+    no_space t = true -> split_all_aux (t ++ rest) cur = split_all_aux rest (rev t ++ cur).
+  Proof.
+    revert cur. induction t as [|c t IH]; intros cur H; [reflexivity|].
+    simpl in H. apply andb_true_iff in H as [H1 H2]. apply negb_true_iff in H1.
+    simpl. rewrite H1, (IH _ H2), <- app_assoc. reflexivity.
+  Qed.
+
+  Definition word (t : str) : bool := nonempty t && no_space t.
+
+  Lemma split_all_join ts : Forall (fun t => word t = true) ts -> split_all (join [SP] ts) = ts.
+  Proof.
+    unfold split_all. induction ts as [|t ts IH]; [reflexivity|]. intros H.
+    inversion H as [|? ? Ht Hts]; subst. apply andb_true_iff in Ht as [Hne Hns].
+    destruct ts as [|u ts].
+    - simpl. rewrite <- (app_nil_r t) at 1. rewrite (split_all_aux_app t [] [] Hns). simpl.
+      rewrite app_nil_r. destruct t as [|c t]; [discriminate|].
+      destruct (rev (c :: t)) eqn:E; [apply (f_equal (@length N)) in E; rewrite rev_length in E; discriminate|].
+      rewrite <- E, rev_involutive. reflexivity.
+    - change (join [SP] (t :: u :: ts)) with (t ++ [SP] ++ join [SP] (u :: ts)).
+      rewrite (split_all_aux_app t _ [] Hns). simpl app. simpl split_all_aux at 1. rewrite app_nil_r.
+      destruct t as [|c t]; [discriminate|].
+      destruct (rev (c :: t)) eqn:E; [apply (f_equal (@length N)) in E; rewrite rev_length in E; discriminate|].
+      rewrite <- E, rev_involutive. f_equal. apply IH; exact Hts.
+  Qed.
+
+  (* explicit form of the tilde condition: words joined by single blanks, none of them ~ or ~/x *)
+  Lemma mapM_id ts : Forall (fun t => is_home_kind t = false) ts -> mapM (expand_home_only home) ts = Ok ts.
+  Proof.
+    induction ts as [|t ts IH]; [reflexivity|]. intros H. inversion H as [|? ? Ht Hts]; subst.
+    simpl. unfold expand_home_only at 1. unfold is_home_kind in Ht.
+    destruct (classify_token t); try discriminate; simpl; rewrite (IH Hts); reflexivity.
+  Qed.
+
+  Lemma tilde_fixed_words ts :
+    Forall (fun t => word t = true) ts -> Forall (fun t => is_home_kind t = false) ts ->
+    tilde_fixed home (join [SP] ts) = true.
+  Proof.
+    intros Hw Hk. unfold tilde_fixed, expand_tildes. rewrite (split_all_join ts Hw), (mapM_id ts Hk). simpl.
+    apply str_eqb_refl.
+  Qed.
+
+  Lemma no_message_plain p : last_ns p = true -> last_ch p <> Some DQ -> no_message p = true.
+  Proof. intros H1 H2. unfold no_message. rewrite (extract_no_quote p H1 H2). apply str_eqb_refl. Qed.
+
+  Lemma step_alias g src tgt :
+    wf_alias home src tgt = true -> step home expu g (write_alias src tgt) = Ok (Some (EAlias src tgt)).
+  Proof.
+    unfold wf_alias. intros H. apply andb_true_iff in H as [H Hexp]. apply andb_true_iff in H as [H Hnt].
+    apply andb_true_iff in H as [H Hns]. apply andb_true_iff in H as [Hsrc Htgt].
+    assert (Hws : word src = true) by (unfold word; rewrite Hsrc, Hns; reflexivity).
+    assert (Hwt : word tgt = true) by (unfold word; rewrite Htgt, Hnt; reflexivity).
+    assert (Hf : first_ns (src ++ SP :: tgt) = true).
+    { destruct src as [|c s]; [discriminate|]. simpl in Hns. apply andb_true_iff in Hns as [Hc _]. exact Hc. }
+    assert (Hl : last_ns (src ++ SP :: tgt) = true).
+    { change (src ++ SP :: tgt) with (src ++ [SP] ++ tgt). rewrite app_assoc. apply last_ns_app.
+      unfold last_ns. destruct (rev tgt) as [|c r] eqn:E.
+      - apply (f_equal (@length N)) in E. rewrite rev_length in E. destruct tgt; discriminate.
+      - assert (Hin : In c tgt) by (apply in_rev; rewrite E; left; reflexivity).
+        unfold no_space in Hnt. rewrite forallb_forall in Hnt. apply Hnt; exact Hin. }
+    unfold step, pre_line, write_alias.
+    change ($"alias" ++ [SP] ++ src ++ [SP] ++ tgt) with ($"alias" ++ SP :: (src ++ SP :: tgt)).
+    set (b := src ++ SP :: tgt) in *.
+    assert (Hstrip : strip_ws ($"alias" ++ SP :: b) = $"alias" ++ SP :: b).
+    { apply strip_edges; [reflexivity|].
+      apply (last_ns_app ($"alias" ++ [SP]) b) in Hl. rewrite <- app_assoc in Hl. exact Hl. }
+    rewrite Hstrip. change (nonempty ($"alias" ++ SP :: b)) with true. cbn [negb orb].
+    change (prefixb [HASH] ($"alias" ++ SP :: b)) with false.
+    rewrite (split1_written $"alias" b); [|discriminate|reflexivity|exact Hf].
+    change (lower $"alias") with $"alias". rewrite (strip_edges b Hf Hl).
+    change (body home expu g $"alias" b) with (do_alias home b).
+    unfold do_alias, b. change (src ++ SP :: tgt) with (join [SP] [src; tgt]).
+    rewrite split_all_join by (repeat constructor; assumption).
+    unfold expand_tildes. change (split_all src) with (split_all (join [SP] [src])).
+    rewrite split_all_join by (repeat constructor; assumption).
+    simpl mapM. destruct (expand_home_only home src) as [s'|]; [|discriminate].
+    apply str_eqb_eq in Hexp. subst s'. reflexivity.
+  Qed.
+End RoundText.
+
+(* ---------------------------------------------------------------- loading stage *)
+Section Load.
+  Variable home : option str.
+  Variable expu : str -> eu_result.
+
+  Lemma load_layers_unusable rs acc :
+    existsb unusable rs = true -> load_layers home expu rs acc = ConfigError \/ load_layers home expu rs acc = Propagated.
+  Proof.
+    revert acc. induction rs as [|r rs IH]; intros acc H; [discriminate|].
+    simpl in H. simpl load_layers.
+    destruct r; simpl in *; auto.
+    - destruct (parse_config home expu t); simpl; auto.
+  Qed.
+
+  Lemma config_stage_unusable rs :
+    existsb unusable rs = true -> config_stage home expu rs = AnswerAsk \/ config_stage home expu rs = AnswerDefer.
+  Proof.
+    intros H. unfold config_stage. destruct (load_layers_unusable rs [] H) as [-> | ->]; auto.
+  Qed.
+
+  (* the other direction: the analysis runs only if every present layer was read, decoded and parsed *)
+  Lemma load_layers_loaded rs acc cs :
+    load_layers home expu rs acc = Loaded cs -> existsb unusable rs = false.
+  Proof.
+    revert acc. induction rs as [|r rs IH]; intros acc; [reflexivity|].
+    simpl. destruct r; simpl; try discriminate; eauto.
+    destruct (parse_config home expu t); simpl; [eauto|discriminate].
+  Qed.
+End Load.
+
+(* ---------------------------------------------------------------- what is false *)
+(* before the repairs: an unexpandable log path ended the loop, and a message containing a line
+   separator other than \n did not survive *)
+Definition eu_nosuchuser (v : str) : eu_result := if prefixb $"~nosuchuser" v then EURuntime else EUOk v.
+
+Lemma legacy_total_refuted :
+  legacy_parse_config (Some $"/h") eu_nosuchuser ($"deny rm" ++ [NL] ++ $"set log ~nosuchuser/x") = Exn RuntimeError.
+Proof. vm_compute. reflexivity. Qed.
+Lemma head_total_witness :
+  exists c, parse_config (Some $"/h") eu_nosuchuser ($"deny rm" ++ [NL] ++ $"set log ~nosuchuser/x") = Ok c
+            /\ List.length (c_rules c) = 1%nat.
+Proof. eexists. split; vm_compute; reflexivity. Qed.
+
+Definition v_ls : rule_value := mkrv $"deny" $"rm" false (Some [97; 8232; 98]).   (* message a U+2028 b *)
+Lemma legacy_roundtrip_refuted :
+  wf_value (Some $"/h") v_ls = true /\ one_line v_ls = true /\
+  exists c, legacy_parse_config (Some $"/h") eu_nosuchuser (write_config [v_ls]) = Ok c
+            /\ c_rules c = [mkrule $"deny" ($"rm " ++ [DQ; 97]) None false].
+Proof. split; [vm_compute; reflexivity|]. split; [vm_compute; reflexivity|]. eexists. split; vm_compute; reflexivity. Qed.
+
+(* without a determinable home directory the loop is left by RuntimeError (Path.home() in
+   _expand_home_only is outside the reach of `except ValueError`) *)
+Lemma total_needs_home : parse_config None eu_nosuchuser $"allow ~/bin/x" = Exn RuntimeError.
+Proof. vm_compute. reflexivity. Qed.
